@@ -11,6 +11,7 @@ from __future__ import annotations
 
 import itertools
 import os
+import shutil
 import re
 import sysconfig
 
@@ -209,6 +210,53 @@ def run_corpus(case):
             common.rmtree(cwd)
 
 
+STRUCT_FORMS = {
+    # docs/struct.rst, struct.yaml (Cstruct_ptr, Cstruct_list, Arrays1): member kinds, each struct alone in its library so
+    # that nothing else brings the module's USE names in
+    "ptr_members": ("struct S1 { int n; double *vals; const char *label; };", ["int n", "double *vals", "const char *label"]),
+    "ptr_only": ("struct S1 { const int *first; };", ["const int *first"]),
+    "ptr_after_array": ("struct S1 { double box[2][3]; long *tags; };", ["double box[2][3]", "long *tags"]),
+    "natives": ("struct S1 { int i; long l; float f; double d; size_t z; int64_t w; short h; };",
+                ["int i", "long l", "float f", "double d", "size_t z", "int64_t w", "short h"]),
+    "char_members": ("struct S1 { char name[20]; char *text; int n; };", ["char name[20]", "char *text", "int n"]),
+}
+
+
+def run_struct_members(case):
+    """A struct declared in one line or member by member, alone or next to one scalar function: every generated file compiles."""
+    from .. import shroudrun
+    lang, form, style, fn = case["lang"], case["form"], case["style"], case["fn"]
+    res = {"violations": [], "stats": {}, "name": "sm-%s-%s-%s%s" % (lang, form, style, "-fn" if fn else "")}
+    text, members = STRUCT_FORMS[form]
+    decls = [{"decl": text}] if style == "inline" else [{"decl": "struct S1", "declarations": [{"decl": m} for m in members]}]
+    if fn:
+        decls.append({"decl": "int sm_count(int k)"})
+    y = {"library": "sm", "cxx_header": "sm.h", "language": lang,
+         "options": {"wrap_c": True, "wrap_fortran": True, "wrap_python": False, "wrap_lua": False}, "declarations": decls}
+    sp = {"name": res["name"], "files": {"work/sm.yaml": workloads.dump_yaml(y)}, "dirs": ["out"],
+          "argv": ["--outdir", "out", "--logdir", "out", "work/sm.yaml"], "monitors": [], "keep": True}
+    rr = shroudrun.run(sp)
+    cwd = rr.get("cwd")
+    try:
+        if rr.get("exc") or rr.get("exit") != 0:
+            res["violations"].append({"mech": "shroud-fails-on-admitted-library:struct-members:%s" % form, "detail": "%s: %s" % (res["name"], engine.reject_mech(rr)[1][:600])})
+            return res
+        out = os.path.join(cwd, "out")
+        open(os.path.join(out, "sm.h"), "w").write("#include <stddef.h>\n#include <stdint.h>\n%s\ntypedef struct S1 S1;\n%s\n" % (
+            text, "#ifdef __cplusplus\nextern \"C\" {\n#endif\nint sm_count(int k);\n#ifdef __cplusplus\n}\n#endif" if fn else ""))
+        open(os.path.join(out, "sm_impl.c"), "w").write('#include "sm.h"\n%s' % ("int sm_count(int k) { return k + 1; }\n" if fn else "int sm_unused;\n"))
+        rc, so, se = engine.sh(["gcc", "-std=c99", "-w", "-fPIC", "-c", "sm_impl.c", "-o", "sm_impl.o"], out)
+        if rc != 0:
+            res["harness_error"] = "struct-members subject does not compile: " + se[:300]
+            return res
+        res["subject_headers"] = ["sm.h"]
+        compile_all(res["name"], lang, out, [], res, ["sm_impl.o"], wraps=("c", "fortran"))
+        return res
+    finally:
+        if cwd:
+            common.rmtree(cwd)
+
+
 def covering_configs(r, thorough):
     """Pairwise-covering array over the option axes (greedy)."""
     axes = {
@@ -332,6 +380,21 @@ def main(rec):
             rec.unreach(u[:60])
         for v in rr["violations"]:
             rec.violation(v["mech"], v["detail"] + "\noptions: %r" % (c["row"],), {"lib": c["lib"]["name"], "row": c["row"], "language": c["lib"]["language"]})
+    scases = [{"lang": lang, "form": form, "style": style, "fn": fn} for lang in ("c", "c++") for form in STRUCT_FORMS
+              for style in ("inline", "members") for fn in (False, True)]
+    sres = pool.run_cases("vf.checks.c05", scases, func="run_struct_members", timeout=600)
+    for c, rr in zip(scases, sres):
+        if "stats" not in rr:
+            workloads.bad_run(rec, {"name": "struct-members"}, rr)
+            continue
+        if rr.get("harness_error"):
+            rec.inconclusive = rr["harness_error"][:300]
+            continue
+        rec.merge_stats(rr["stats"])
+        rec.count("struct_member_libraries")
+        rec.case(key="structmembers|%r" % sorted(c.items()))
+        for v in rr["violations"]:
+            rec.violation(v["mech"], v["detail"], dict(c, lib=rr["name"]))
     # declarations guarded by cpp_if (documented per-declaration preprocessor conditions): the Fortran module must be
     # accepted by the compiler under every setting of the macros the conditions name
     from . import c08
